@@ -10,9 +10,10 @@ INT_TYPES = ["bool", "char", "signed char", "unsigned char", "short", "unsigned 
 
 
 def accepted_set(db, f):
-    """Walk the instantiated body of convert_type_fundamental<To,From>: returns
-    (A, final_pieces, nchecks): the exact set of source values that reach the store, and
-    the value stored as pieces over A."""
+    """Walk the instantiated body of convert_type_fundamental<To,From> (helpers and lambdas inlined, every form of abort check
+    recognised - sa/astwalk.py): returns (A, final_pieces, nchecks): the exact set of source values that reach the store, and the
+    value stored as pieces over A."""
+    from ..astwalk import Walker, Hooks, Unhandled, strip
     To = f["params"][0]["t"]
     Fr = f["params"][1]["t"]
     var = f["params"][1]["d"]
@@ -22,48 +23,48 @@ def accepted_set(db, f):
     fin = []
     ev = Evaluator({var}, env)
 
-    def walk(st):
-        s = st.get("s")
-        if s == "block":
-            for x in st["b"]:
-                walk(x)
-        elif s == "decl":
-            for v in st["v"]:
-                if v.get("sa"):
-                    if v.get("failed"):
-                        raise Inconclusive("failed static_assert in instantiation")
-                    continue
-                if "init" in v:
-                    env[v["d"]] = v["init"]
-        elif s == "expr":
-            e = st["e"]
-            if e["k"] == "call" and is_check_fn(db, e.get("fn")):
-                state["S"] = ev.sat(e["args"][0], state["S"])
-                state["n"] += 1
-            elif e["k"] == "bin" and e["op"] == "=" and e["l"]["k"] == "ref" and e["l"]["d"] == tovar:
+    class H(Hooks):
+        def check(self, cond, positive, loc):
+            T = ev.sat(cond, state["S"])
+            state["S"] = T if positive else complement(T, state["S"])
+            state["n"] += 1
+
+        def decl(self, v):
+            if v.get("failed"):
+                raise Inconclusive("failed static_assert in instantiation")
+
+        def assign(self, e):
+            l = strip(e["l"])
+            # the destination: the `to` parameter itself, or a reference parameter of an inlined helper bound to it
+            for _ in range(4):
+                if isinstance(l, dict) and l.get("k") == "ref" and l.get("d") != tovar and l.get("d") in env:
+                    l = strip(env[l["d"]])
+            if isinstance(l, dict) and l.get("k") == "ref" and l.get("d") == tovar and e.get("op") == "=":
                 try:
                     fin.append(ev.ev(e["r"], state["S"]))
                 except Inconclusive as ex:
                     # the stored value cannot be tabulated (e.g. a narrowing cast wrapping over 2^32 periods because a guard is missing):
                     # the accepted set alone may already decide the instance
                     fin.append(("untabulated", str(ex)))
-            elif e["k"] in ("cast", "icast") and e["ck"] == "ToVoid":
+            elif isinstance(l, dict) and l.get("k") == "ref" and l.get("dk") == "local":
                 pass
             else:
-                raise Inconclusive("statement expression %s at %s" % (e["k"], e.get("loc")))
-        elif s == "if":
-            if stmt_always_aborts(st.get("then")) and st.get("else") is None:
-                T = ev.sat(st["c"], state["S"])
-                state["S"] = complement(T, state["S"])
-                state["n"] += 1
-            else:
-                raise Inconclusive("run-time branch at %s" % st.get("loc"))
-        elif s == "null":
-            pass
-        else:
-            raise Inconclusive("statement %s" % s)
+                raise Inconclusive("assignment to %s at %s" % ((l or {}).get("n"), e.get("loc")))
 
-    walk(f["body"])
+        def call(self, e, inlined):
+            if not inlined and "cv" not in e and not (e.get("fn") or {}).get("n", "").startswith("std::numeric_limits"):
+                raise Inconclusive("call of %s at %s" % ((e.get("fn") or {}).get("n"), e.get("loc")))
+
+        def other(self, e):
+            raise Inconclusive("statement expression %s at %s" % (e.get("k"), e.get("loc")))
+
+        def branch(self, st):
+            raise Inconclusive("run-time branch at %s" % st.get("loc"))
+
+    try:
+        Walker(db, H(), env).walk(f["body"])
+    except Unhandled as ex:
+        raise Inconclusive(str(ex))
     return state["S"], fin, state["n"]
 
 
